@@ -17,7 +17,7 @@ LEVEL = "exploration"
 BUDGET = {"quick": 480, "thorough": 9600}
 WALL_CAP = {"quick": 420, "thorough": 3300}
 TOOLS = ["reader-select", "reader-iterate", "taste", "colander", "combine", "chef", "mandoline",
-         "pestle", "whip"]
+         "pestle", "whip", "chk2plt"]
 RULE = ("case = pooled entry point in {reader selections, level iteration, taste, colander, combine, chef, mandoline "
         "2D/3D (return/array/plotfile), pestle, whip, chk2plt} on a generated input; the reference execution is the "
         "serial mode where one exists (chef, mandoline) and the FIFO one-worker schedule otherwise; variants: for each "
